@@ -22,6 +22,7 @@ EXPLANATION = (
 EXPLANATION += (" The status that is tested is the scheduler's own model - a status read through the scheduled system (sys.model) does not count. Drivers are discovered: every package function outside the scheduler that calls Model.execute or execute_systems.")
 EXPLANATION += (" Model.complete() stores COMPLETE on every path (a path without the store must have read the status field as complete; a test through an overridable method of the model does not count). A bound method kept in a field is called on the receiver it was bound to, which is not the scheduler's own model. Empty public methods called from Model.execute are extension points and come after the running test. The silent not-running exit issues no warning.")
 EXPLANATION += (' ModelCompleteError is an ordinary Exception subclass; every method of the scheduled system that the scheduler calls counts like execute for the running-test discipline.')
+EXPLANATION += (' Model defines no __setattr__ / __delattr__ / __getattribute__.')
 ASSUMPTIONS = ["G6: user code completes a model only through Model.complete()", "IntEnum members compare as their declared values"]
 
 SLOC = (CORE + 'Model', '_status')
@@ -201,6 +202,17 @@ def run(cx: Cx):
 
     from .common import check_error_is_plain_exception
     check_error_is_plain_exception(cx, CORE + 'ModelCompleteError')
+    # assigning an attribute of a model is plain assignment: a __setattr__ that re-points the back-reference of whatever is attached
+    # (`value.model = self`) makes a scheduler shared by, or handed over between, two models poll the wrong model for completion
+    hooks_ = [n_ for c_ in prog.mro(prog.cls(CORE + 'Model')) for n_ in ('__setattr__', '__delattr__', '__getattribute__') if n_ in c_.methods]
+    if hooks_:
+        hf = prog.cls(CORE + 'Model').methods.get(hooks_[0], [None])[0]
+        cx.violation('R-DISC', CORE + 'Model.' + hooks_[0], 'model-attributes-are-plain',
+                     f"Model defines {hooks_[0]}: attaching a scheduler or environment to a model now has side effects on the attached "
+                     f"object (its `model` back-reference), so the scheduler of a completed model can end up polling another model",
+                     where=cx.where(hf) if hf else prog.cls(CORE + 'Model').where)
+    else:
+        cx.ok('R-DISC', 'Model has no attribute-assignment hooks', where=prog.cls(CORE + 'Model').where, function=CORE + 'Model')
 
     isr = cx.fn(CORE + 'Model.is_running')
     # completion is a fact about the model: the status lives in the model object itself, not in an object the model merely refers to
